@@ -316,7 +316,7 @@ _surfs("EvalVelMtx", "aerodynamics.eval_mtx.EvalVelMtx", cfgs=MULTI_GP, cost=15,
 from ._generic import implicit_contract
 
 
-@job("deriv.SolveMatrix", ("C01", "C02", "C03", "C05"), cfgs=MULTI[:2] + MULTI[3:4])
+@job("deriv.SolveMatrix", ("C01", "C02", "C03", "C05", "C07"), cfgs=MULTI[:2] + MULTI[3:4])
 def _solve_matrix(env, **cfg):
     implicit_contract(env, lambda: cls("aerodynamics.solve_matrix.SolveMatrix")(surfaces=two_surfaces(cfg)))
 
